@@ -534,7 +534,7 @@ Section Mapping.
     pose proof (fun x => countb_upd_nth m_live ls i pc x E) as HL.
     pose proof (Forall_nth_error _ _ _ _ Hf E) as Hpc.
     assert (FU : forall x, m_loaded_ok x -> Forall m_loaded_ok (upd_nth i x ls)) by (intros x Hx; apply Forall_upd_nth; assumption).
-    unfold mstep, mstep_gen. destruct pc as [e|e cur|e| | | |].
+    unfold mstep, mstep_gen. destruct pc as [e|e cur|e| | | | |].
     - destruct max as [|mx] eqn:Emax.
       + specialize (HA (MActive e)). specialize (HL (MActive e)). cbn in HA, HL |- *.
         split; [lia|]. split; [lia|]. split; [apply FU; exact I|]. intros Hx; lia.
@@ -555,6 +555,8 @@ Section Mapping.
         split; [lia|]. split; [lia|]. split; [apply FU; exact I|]. intros Hx. specialize (Hm Hx). lia.
       + specialize (HA MLive). specialize (HL MLive). cbn in HA, HL |- *.
         split; [lia|]. split; [lia|]. split; [apply FU; exact I|]. intros Hx. specialize (Hm Hx). lia.
+    - specialize (HA MClosing). specialize (HL MClosing). cbn in HA, HL |- *.
+      split; [lia|]. split; [lia|]. split; [apply FU; exact I|]. exact Hm.
     - specialize (HA MDone). specialize (HL MDone). cbn in HA, HL |- *.
       split; [lia|]. split; [lia|]. split; [apply FU; exact I|]. intros Hx. specialize (Hm Hx). lia.
     - specialize (HA MDone). specialize (HL MDone). cbn in HA, HL |- *.
@@ -593,18 +595,19 @@ Proof.
     split; [apply F3|]. intros; lia. }
   destruct H as (Hc & Hl & _ & Hm). split; [exact Hm|]. split; [exact Hc|]. split; [exact Hl|].
   pose proof (countb_imp m_live m_holds (snd s)) as Hi. rewrite Hc, Hl.
-  assert (countb m_live (snd s) <= countb m_holds (snd s)) by (apply Hi; intros [?|? ?|?| | | |]; cbn; congruence). lia.
+  assert (countb m_live (snd s) <= countb m_holds (snd s)) by (apply Hi; intros [?|? ?|?| | | | |]; cbn; congruence). lia.
 Qed.
 
 (* a refused arrival has written nothing (the CAS loop only writes on success) *)
 Lemma mapping_refusal_step max pc sh pc' sh' :
   mstep Current max pc sh = (pc', sh') -> pc' = MRefused -> sh' = sh.
 Proof.
-  unfold mstep, mstep_gen. destruct pc as [e|e cur|e| | | |]; intros H Hr; subst.
+  unfold mstep, mstep_gen. destruct pc as [e|e cur|e| | | | |]; intros H Hr; subst.
   - destruct max; [congruence|].
     destruct ((0 <? S max) && (Z.of_nat (S max) <=? counter sh)%Z); congruence.
   - destruct (counter sh =? cur)%Z; congruence.
   - destruct e; congruence.
+  - congruence.
   - congruence.
   - congruence.
   - congruence.
@@ -627,9 +630,9 @@ Proof. exists [0; 0; 0; 1; 1; 1]. vm_compute. auto. Qed.
    twice (counter -1), after which two connections are live under limit 1 — strictly sequential *)
 Lemma mapping_release_not_idempotent_refuted :
   exists sched,
-    let s := run _ _ (mstep_gen false Current 1) ({| counter := 0; live := 0 |}, [MStart true; MStart false; MStart false]) sched in
+    let s := run _ _ (mstep_gen false true Current 1) ({| counter := 0; live := 0 |}, [MStart true; MStart false; MStart false]) sched in
     live (fst s) = 2%Z /\ snd s = [MDone; MLive; MLive] /\
-    counter (fst (run _ _ (mstep_gen false Current 1) ({| counter := 0; live := 0 |}, [MStart true; MStart false; MStart false])
+    counter (fst (run _ _ (mstep_gen false true Current 1) ({| counter := 0; live := 0 |}, [MStart true; MStart false; MStart false])
                       (firstn 4 sched))) = (-1)%Z.
 Proof. exists [0; 0; 0; 0; 1; 1; 1; 2; 2; 2]. vm_compute. auto. Qed.
 
@@ -637,6 +640,20 @@ Proof. exists [0; 0; 0; 0; 1; 1; 1; 2; 2; 2]. vm_compute. auto. Qed.
 Lemma mapping_release_idempotent_witness :
   let s := mrun Current 1 {| counter := 0; live := 0 |} [MStart true; MStart false; MStart false] [0; 0; 0; 0; 1; 1; 1; 2; 2; 2] in
   fst s = {| counter := 1; live := 1 |} /\ snd s = [MDone; MLive; MRefused].
+Proof. vm_compute. auto. Qed.
+
+(* Tunnel.Close returning the slot BEFORE the local connection is closed (NOT the code): limit 1, the tunnel of the first
+   connection is being closed from outside and its localConn.Close() has not returned; a second connection arrives and is let
+   in — two OPEN connections *)
+Lemma mapping_release_before_close_refuted :
+  exists sched,
+    let s := run _ _ (mstep_gen true false Current 1) ({| counter := 0; live := 0 |}, [MStart false; MStart false]) sched in
+    live (fst s) = 2%Z /\ snd s = [MClosing; MLive].
+Proof. exists [0; 0; 0; 0; 1; 1; 1]. vm_compute. auto. Qed.
+
+Lemma mapping_close_first_witness :
+  let s := mrun Current 1 {| counter := 0; live := 0 |} [MStart false; MStart false] [0; 0; 0; 0; 1; 1; 1] in
+  fst s = {| counter := 1; live := 1 |} /\ snd s = [MClosing; MRefused].
 Proof. vm_compute. auto. Qed.
 
 (* ---------------------------------------------------------------- 3b. the slot as events: exact count, idempotent release *)
@@ -1096,3 +1113,53 @@ Lemma index_first_refuted :
   exists sched, let s := irun IndexFirst {| i_stored := []; i_index := [] |} [ICreate 7 0; IList 1] sched in
                 snd s = [ICreate 7 2; IList 0] /\ i_stored (fst s) = [7%N] /\ i_counted (fst s) = 0.
 Proof. exists [0; 1; 0]. vm_compute. auto. Qed.
+
+(* ================================================================ 8. active codes and the claim marker *)
+Section Claim.
+  Variable max : nat.
+  Definition KInv (s : ksh * list kpc) : Prop :=
+    k_claimed (fst s) = countb k_is_claimed (snd s) /\ k_claimed (fst s) <= k_active (fst s) /\ k_active (fst s) <= max.
+
+  Lemma k_step s i : KInv s -> KInv (sys_step _ _ (kstep true max) s i).
+  Proof.
+    destruct s as [sh ls]. unfold KInv, sys_step. cbn [fst snd]. intros (Hc & Hle & Hm).
+    destruct (nth_error ls i) as [pc|] eqn:E; [|cbn [fst snd]; auto].
+    pose proof (fun x => countb_upd_nth k_is_claimed ls i pc x E) as HA.
+    destruct sh as [a c]. cbn [k_active k_claimed] in *. unfold kstep. cbn [k_active k_claimed].
+    destruct pc.
+    - destruct (max <=? a) eqn:El; match goal with |- context [upd_nth i ?x ls] => specialize (HA x) end; cbn in HA |- *;
+        [|apply Nat.leb_gt in El]; lia.
+    - specialize (HA KCreated). cbn in HA |- *. lia.
+    - specialize (HA KRefusedK). cbn in HA |- *. lia.
+    - destruct (c <? a) eqn:El; match goal with |- context [upd_nth i ?x ls] => specialize (HA x) end; cbn in HA |- *;
+        [apply Nat.ltb_lt in El|]; lia.
+    - specialize (HA KUsed). cbn in HA |- *. lia.
+    - specialize (HA KUsed). cbn in HA |- *. lia.
+    - specialize (HA KIdle). cbn in HA |- *. lia.
+  Qed.
+End Claim.
+
+(* creates of the client and activations of its codes in any number and under any schedule: the ACTIVE codes (claimed ones
+   included — a claim can be given back) never exceed the limit *)
+Theorem claim_counted_never_exceeds max base (ts : list kpc) sched :
+  base <= max -> countb k_is_claimed ts = 0 ->
+  let s := krun true max {| k_active := base; k_claimed := 0 |} ts sched in
+  k_active (fst s) <= max /\ k_claimed (fst s) <= k_active (fst s).
+Proof.
+  intros Hb Hz s.
+  assert (H : KInv max s).
+  { unfold s, krun. apply inv_all_schedules; [intros s0 i; apply k_step|]. unfold KInv. cbn [fst snd k_active k_claimed]. lia. }
+  destruct H as (_ & H1 & H2). split; assumption.
+Qed.
+
+(* skipping claimed codes in the count: limit 1, one active code; its activation claims it, a create sees 0 and is let in —
+   two active codes while the claim can still be given back *)
+Lemma claim_skipped_refuted :
+  exists sched, let s := krun false 1 {| k_active := 1; k_claimed := 0 |} [KActivate; KCreate] sched in
+                k_active (fst s) = 2 /\ snd s = [KClaimed; KCreated].
+Proof. exists [0; 1]. vm_compute. auto. Qed.
+
+Lemma claim_counted_witness :
+  let s := krun true 1 {| k_active := 1; k_claimed := 0 |} [KActivate; KCreate; KCreate] [0; 1; 0; 2] in
+  fst s = {| k_active := 1; k_claimed := 0 |} /\ snd s = [KUsed; KRefusedK; KCreated].
+Proof. vm_compute. auto. Qed.
